@@ -61,10 +61,10 @@ func c16Main(e *Env) (*res.Result, error) {
 		n = 1200
 	}
 	disabled := disabledTags()
-	forms := specgen.BaseForms()
+	nextForm := formWalker(e, specgen.BaseForms())
 	specs := collect(e, "C16", n, func(t *rapid.T) PkgSpec {
 		c := specgen.NewCtx(t, disabled)
-		bf := rapid.SampledFrom(forms).Draw(t, "baseform")
+		bf := nextForm()
 		d := c.RouterDocWithSecurity()
 		d.Servers = bf.Servers
 		// a root-level single-variable template can match the spec path (any method)
